@@ -76,6 +76,12 @@ int main(int argc, char **argv) {
     else if (strcmp(dom, "heap") == 0) dom_heap();
     else if (strcmp(dom, "lexer") == 0) dom_lexer();
     else if (strcmp(dom, "match") == 0) dom_match();
+    else if (strcmp(dom, "p01") == 0) dom_p01();
+    else if (strcmp(dom, "p02") == 0) dom_p02();
+    else if (strcmp(dom, "p05") == 0) dom_p05();
+    else if (strcmp(dom, "p06") == 0) dom_p06();
+    else if (strcmp(dom, "p08") == 0) dom_p08();
+    else if (strcmp(dom, "p09") == 0) dom_p09();
     else { fprintf(stderr, "unknown domain %s\n", dom); return 2; }
     fflush(stdout);
     return 0;
